@@ -285,8 +285,11 @@ func (d *Distributor) addSomeChain(ctx context.Context, rawChain [][]byte, loadP
 			return loglist3.LogList{}, nil, fmt.Errorf("distributor unable to process cert-chain: %w", err)
 		}
 
-		// Chain might be rooted to the Log which has no root-info yet.
-		return d.usableLl.Compatible(parsedChain[0], nil, d.logRoots), parsedChain, nil
+		// Chain might be rooted to the Log which has no root-info yet. It does
+		// not verify against the roots of any Log whose roots are known, so
+		// only Logs without root-info are candidates.
+		temporallyCompatible := d.usableLl.TemporallyCompatible(parsedChain[0])
+		return temporallyCompatible.RootCompatible(nil, d.logRoots), parsedChain, nil
 	}
 	compatibleLogs, parsedChain, err := compatibleLogsAndChain()
 	if err != nil {
